@@ -586,6 +586,26 @@ pub fn run_c13(tier: Tier) -> i32 {
             nviol += 1;
         }
     }
+    // end to end through spawn_incoming (real tokio tasks)
+    let mut spawned_cases = 0u32;
+    for n in [1u32, 2, 3] {
+        spawned_cases += 1;
+        let r = std::panic::catch_unwind(|| spawned_reset_case(n));
+        let msg = match r {
+            Ok(None) => continue,
+            Ok(Some(m)) => m,
+            Err(_) => format!("n={n}: panic: {}", crate::mock::take_panic()),
+        };
+        let dir = verif_dir().join("replays").join("C13");
+        let _ = std::fs::create_dir_all(&dir);
+        let path = dir.join(format!("C13-shed-below-limit-spawned-n{n}.json"));
+        let doc = json!({"property": "C13", "harness": "limits_key/spawned", "signature": "C13-shed-below-limit", "message": msg, "n": n, "history": []});
+        std::fs::write(&path, serde_json::to_string_pretty(&doc).unwrap()).unwrap();
+        println!("VIOLATION property=C13 replay={}", path.display());
+        eprintln!("  C13-shed-below-limit: {msg}");
+        nviol += 1;
+        break;
+    }
     let ev = json!({
         "property_id": "C13", "tier": tier.name(), "seed": seed(), "level": "model_checking",
         "coverage": {
@@ -602,6 +622,7 @@ pub fn run_c13(tier: Tier) -> i32 {
             "depth_target": depth,
             "levels": levels_doc,
             "known_findings_seen": known_seen,
+            "spawned_end_to_end_cases": spawned_cases,
         },
         "assumptions": ["tokio unbounded mpsc and Arc/Weak are trusted; thread-level interleavings of Tracker::drop are covered by the yield point between 'count reaches zero' and 'key sent' (the only two steps of that drop)"],
         "wall_s": start.elapsed().as_secs_f64(),
@@ -625,8 +646,130 @@ pub fn run_c13(tier: Tier) -> i32 {
     }
 }
 
+
+// ---------------------------------------------------------------------------------------------
+// The limiter as the examples run it: `listener.max_channels_per_key(n, key).execute(serve)` under
+// `spawn_incoming`, every channel and request a real tokio task. A connection is reset (its read side
+// reports an error) while one of its handlers is still running; then a connection with the same key
+// arrives. The first channel is over - whoever holds its slot longer sheds a connection although no
+// channel with its key is alive.
+
+struct ResettableEnd {
+    key: u8,
+    inner: tarpc::transport::channel::UnboundedChannel<ClientMessage<u32>, Response<u32>>,
+    reset: std::sync::Arc<std::sync::atomic::AtomicBool>,
+    waker: std::sync::Arc<std::sync::Mutex<Option<std::task::Waker>>>,
+    failed: bool,
+}
+impl Stream for ResettableEnd {
+    type Item = Result<ClientMessage<u32>, std::io::Error>;
+    fn poll_next(mut self: Pin<&mut Self>, cx: &mut Context<'_>) -> Poll<Option<Self::Item>> {
+        *self.waker.lock().unwrap() = Some(cx.waker().clone());
+        if self.reset.load(Ordering::SeqCst) {
+            if self.failed {
+                return Poll::Ready(None);
+            }
+            self.failed = true;
+            return Poll::Ready(Some(Err(std::io::Error::new(std::io::ErrorKind::ConnectionReset, "reset"))));
+        }
+        Pin::new(&mut self.inner).poll_next(cx).map(|o| o.map(|r| r.map_err(|e| std::io::Error::new(std::io::ErrorKind::Other, e.to_string()))))
+    }
+}
+impl Sink<Response<u32>> for ResettableEnd {
+    type Error = std::io::Error;
+    fn poll_ready(mut self: Pin<&mut Self>, cx: &mut Context<'_>) -> Poll<Result<(), Self::Error>> {
+        Pin::new(&mut self.inner).poll_ready(cx).map_err(|e| std::io::Error::new(std::io::ErrorKind::Other, e.to_string()))
+    }
+    fn start_send(mut self: Pin<&mut Self>, item: Response<u32>) -> Result<(), Self::Error> {
+        Pin::new(&mut self.inner).start_send(item).map_err(|e| std::io::Error::new(std::io::ErrorKind::Other, e.to_string()))
+    }
+    fn poll_flush(mut self: Pin<&mut Self>, cx: &mut Context<'_>) -> Poll<Result<(), Self::Error>> {
+        Pin::new(&mut self.inner).poll_flush(cx).map_err(|e| std::io::Error::new(std::io::ErrorKind::Other, e.to_string()))
+    }
+    fn poll_close(mut self: Pin<&mut Self>, cx: &mut Context<'_>) -> Poll<Result<(), Self::Error>> {
+        Pin::new(&mut self.inner).poll_close(cx).map_err(|e| std::io::Error::new(std::io::ErrorKind::Other, e.to_string()))
+    }
+}
+
+/// None = held; Some(message) = violated. `n` connections with one key are opened and served, each
+/// with a handler that never finishes; all are reset; then one more with the same key arrives.
+pub fn spawned_reset_case(n: u32) -> Option<String> {
+    use futures::{SinkExt, StreamExt};
+    use tarpc::server::Channel;
+    use tarpc::server::incoming::{spawn_incoming, Incoming};
+    let rt = tokio::runtime::Builder::new_current_thread().enable_time().start_paused(true).build().unwrap();
+    rt.block_on(async move {
+        let (ltx, lrx) = futures::channel::mpsc::unbounded::<BaseChannel<u32, u32, ResettableEnd>>();
+        let serve = tarpc::server::serve(|_, x: u32| async move {
+            if x < 1000 {
+                futures::future::pending::<()>().await;
+            }
+            Ok(x)
+        });
+        let incoming = lrx.max_channels_per_key(n, |c: &BaseChannel<u32, u32, ResettableEnd>| c.transport().key).execute(serve);
+        let server = tokio::spawn(spawn_incoming(incoming));
+        let settle = || async {
+            for _ in 0..64 {
+                tokio::task::yield_now().await;
+            }
+        };
+        let t0 = std::time::Instant::now();
+        let mk = |id: u64, x: u32| {
+            let mut ctx = tarpc::context::current();
+            ctx.deadline = t0 + std::time::Duration::from_secs(3600);
+            ClientMessage::Request(tarpc::Request { context: ctx, id, message: x })
+        };
+        let mut peers = vec![];
+        let mut resets = vec![];
+        for _ in 0..n {
+            let (peer, server_end) = tarpc::transport::channel::unbounded::<Response<u32>, ClientMessage<u32>>();
+            let reset = std::sync::Arc::new(std::sync::atomic::AtomicBool::new(false));
+            let waker = std::sync::Arc::new(std::sync::Mutex::new(None));
+            let end = ResettableEnd { key: 7, inner: server_end, reset: reset.clone(), waker: waker.clone(), failed: false };
+            ltx.unbounded_send(BaseChannel::with_defaults(end)).ok()?;
+            let mut peer = peer;
+            peer.send(mk(1, 1)).await.ok()?;
+            peers.push(peer);
+            resets.push((reset, waker));
+        }
+        settle().await;
+        // every connection of the key is reset while its handler is still running
+        for (reset, waker) in &resets {
+            reset.store(true, Ordering::SeqCst);
+            if let Some(w) = waker.lock().unwrap().take() {
+                w.wake();
+            }
+        }
+        settle().await;
+        // a new connection with the same key: no channel with that key is alive any more
+        let (mut peer, server_end) = tarpc::transport::channel::unbounded::<Response<u32>, ClientMessage<u32>>();
+        let end = ResettableEnd { key: 7, inner: server_end, reset: Default::default(), waker: Default::default(), failed: false };
+        ltx.unbounded_send(BaseChannel::with_defaults(end)).ok()?;
+        let _ = peer.send(mk(2, 2000)).await;
+        settle().await;
+        let verdict = match futures::FutureExt::now_or_never(peer.next()) {
+            Some(Some(Ok(r))) if r.message == Ok(2000) => None,
+            Some(None) | Some(Some(Err(_))) => Some(format!("n={n}: {n} connections of one key were reset (read error) while a handler of each was still running; a new connection with that key was shed although no channel with its key was alive (served through spawn_incoming)")),
+            other => Some(format!("n={n}: after {n} connections of one key were reset, a new connection with that key is not served: {:?}", other.map(|o| o.map(|r| r.map(|x| x.request_id).map_err(|e| e.to_string())))))
+        };
+        server.abort();
+        drop(peers);
+        verdict
+    })
+}
+
 pub fn replay_c13(doc: &serde_json::Value, path: &str) -> i32 {
     let n = doc["n"].as_u64().unwrap() as u32;
+    if doc["harness"].as_str() == Some("limits_key/spawned") {
+        return match spawned_reset_case(n) {
+            None => 0,
+            Some(m) => {
+                println!("violated: C13-shed-below-limit|{m}");
+                println!("VIOLATION property=C13 replay={path}");
+                1
+            }
+        };
+    }
     let h: Vec<Ev> = serde_json::from_value(doc["history"].clone()).expect("history");
     let o = replay(n, &h);
     for l in &o.log {
